@@ -1,6 +1,6 @@
 (** Property C19 — [updog create] ingests a CSV faithfully in both modes.
     Statements only; proofs are [exact] of CsvProofs.v. *)
-From updog Require Import Prelude Index IndexProofs Csv CsvProofs.
+From updog Require Import Prelude Index IndexProofs Csv CsvProofs CsvBytes CsvBytesProofs.
 Local Open Scope N_scope.
 
 (** Header normalisation: one byte per rune, a-z kept, A-Z lower-cased, everything else '_'
@@ -18,8 +18,39 @@ Theorem C19_fields header rec c v :
   NoDup header → ((c, v) ∈ record_row header rec ↔ (c, v) ∈ zip header rec).
 Proof. exact (record_row_lookup header rec c v). Qed.
 
+(** From the BYTES of the input file (CsvBytes.v: encoding/csv with create.go's configuration,
+    Go's rune decoding).  Field contents — quotes, commas, line breaks, lone CR, NUL, non-UTF-8
+    bytes, empty — are preserved exactly, however the file spells the table ([q]: which fields
+    are quoted although they need not be); only CR LF inside a field is read as LF. *)
+Theorem C19_fields_preserved (q : str → bool) (recs : list (list str)) :
+  Forall (λ r, r ≠ []) recs → same_width recs = true →
+  Forall (λ r, Forall (λ f, no_crlf f = true) r) recs →
+  csv_read (csv_write q recs) = Some recs.
+Proof. exact (csv_roundtrip q recs). Qed.
+(** A ragged table is rejected. *)
+Theorem C19_ragged_rejected (q : str → bool) (recs : list (list str)) :
+  Forall (λ r, r ≠ []) recs → same_width recs = false →
+  Forall (λ r, Forall (λ f, no_crlf f = true) r) recs →
+  csv_read (csv_write q recs) = None.
+Proof. exact (csv_ragged_rejected q recs). Qed.
+(** Windows line ends are read like Unix ones. *)
+Theorem C19_crlf_line_ends s : Forall (λ c, c ≠ CR) s → csv_read (to_crlf s) = csv_read s.
+Proof. exact (csv_read_crlf s). Qed.
+(** Header names: every scalar value survives the UTF-8 encoding / Go's decoding. *)
+Theorem C19_utf8 rs : Forall (λ r, scalar r = true) rs → utf8_decode (utf8_encode rs) = rs.
+Proof. exact (utf8_roundtrip rs). Qed.
+
 Section C19.
   Context (H : list N → N).
+
+  (** The command on the written file is the command on the table. *)
+  Theorem C19_create_from_bytes (q : str → bool) (big ex : bool) (hdr : list (list N)) (recs : list (list str)) :
+    hdr ≠ [] → Forall (Forall (λ r, scalar r = true)) hdr →
+    Forall (λ r, length r = length hdr) recs →
+    Forall (λ h, no_crlf (utf8_encode h) = true) hdr →
+    Forall (Forall (λ f, no_crlf f = true)) recs →
+    create_bytes H big ex (csv_write q (map utf8_encode hdr :: recs)) = create H big ex hdr recs.
+  Proof. exact (create_bytes_written H q big ex hdr recs). Qed.
 
   Theorem C19_modes_equal ex hdr recs : create H true ex hdr recs = create H false ex hdr recs.
   Proof. exact (create_modes_equal H ex hdr recs). Qed.
@@ -40,4 +71,9 @@ Section C19.
 End C19.
 
 Print Assumptions C19_modes_equal.
+Print Assumptions C19_fields_preserved.
+Print Assumptions C19_ragged_rejected.
+Print Assumptions C19_crlf_line_ends.
+Print Assumptions C19_utf8.
+Print Assumptions C19_create_from_bytes.
 Print Assumptions C19_index_is_the_table.
